@@ -58,7 +58,10 @@ def run_case(k):
     if c['cls'] != 'Hessian':
         kw['order'] = order
     if c['few']:
-        kw['step'] = MinStepGenerator(base_step=0.01, num_steps=1, check_num_steps=False)
+        from numdifftools.step_generators import MaxStepGenerator
+        # too few steps through either generator class (the count must not be silently raised behind check_num_steps=False)
+        kw['step'] = (MaxStepGenerator(base_step=0.5, num_steps=1, check_num_steps=False) if (c['dim'] + c['n'] + len(c['m'])) % 2
+                      else MinStepGenerator(base_step=0.01, num_steps=1, check_num_steps=False))
     x = np.array([0.5, 1.25, -0.75][:c['dim']])
     if c['xc'] == 1:
         x = x + 1j * c.get('im', 0.25)
@@ -107,8 +110,14 @@ def run_misc(k):
         fn = lambda: limits.Residue(lambda z: 1.0 / np.expm1(z) ** a * (1 + z), pole_order=a, order=b)(0.0)
     elif kind == 'limit_path':
         path = {1: 'radial', 2: 'spiral', 3: 'diagonal', 4: 'x', 5: 'straight', 6: 'random', 7: 'Radial', 8: 's', 9: 'radial '}[a]
-        kw = {0: {}, 1: dict(dtheta=0), 2: dict(dtheta=np.pi / 4, step_ratio=2.0), 3: {}, 4: dict(dtheta=0.0), 5: dict(dtheta=0)}[b]
-        if a == 2 or b == 4:      # spiral needs the complex machinery; constructing the generator is the guard point
+        kw = {0: {}, 1: dict(dtheta=0), 2: dict(dtheta=np.pi / 4, step_ratio=2.0), 3: {}, 4: dict(dtheta=0.0), 5: dict(dtheta=0), 6: {}, 7: {}}[b]
+        if b == 6:      # the limit at a REGULAR point (f is finite there: no step is ever generated)
+            fn = lambda: limits.Limit(lambda z: np.sin(z) / z, path=path)(1.0)
+        elif b == 7:    # construction alone
+            fn = lambda: limits.Limit(lambda z: np.sin(z) / z, path=path) and None
+        if b in (6, 7):
+            pass
+        elif a == 2 or b == 4:      # spiral needs the complex machinery; constructing the generator is the guard point
             fn = lambda: limits.CStepGenerator(path=path, **kw)
         elif b in (3, 5):
             fn = lambda: limits.Residue(lambda z: 1.0 / np.expm1(z), path=path, **kw)(0.0)
